@@ -27,23 +27,6 @@ theorem once_id (l : List Field) : ∀ (seen : List String),
     intro e
     exact hn.1 (by rw [← e]; exact List.mem_map_of_mem hf)
 
-theorem top_leaf_depth (t : Tree) : ∀ (top : Bool) (path : List String) (inh : Bool) (d : Nat),
-    ∀ l ∈ leaves top path inh d t, l.top = true → (top = true ∧ l.depth = d) := by
-  induction t with
-  | nil => intro _ _ _ _ l hl; simp [leaves] at hl
-  | field f rest ih =>
-    intro top path inh d l hl ht
-    simp only [leaves, List.mem_cons] at hl
-    rcases hl with hl | hl
-    · subst hl; simp at ht; simp [ht]
-    · exact ih top path inh d l hl ht
-  | embed n ty p nm body rest ihb ihr =>
-    intro top path inh d l hl ht
-    simp only [leaves, List.mem_append] at hl
-    rcases hl with hl | hl
-    · have := ihb false _ _ _ l hl ht; simp at this
-    · exact ihr top path inh d l hl ht
-
 theorem genShadow_zero (t : Tree) (n : String) : genShadow t 0 n = false := by
   simp [genShadow, shadowOf]
 
@@ -64,16 +47,15 @@ theorem accessList_leaves (t : Tree) (hw : wfOnce t = true) (sel : Field → Boo
   rw [walk_fields _ t true [] false 0, List.filter_map, List.map_map, List.filter_filter]
   unfold leavesTop
   have h2 : (leaves true [] false 0 t).filter (fun a =>
-        ((fun f => sel f && !f.isShadowed) ∘ fun l => mkField (shadowOf (walk noShadow true false 0 t)) l.depth l.marked l.info l.top) a &&
+        ((fun f => sel f && !f.isShadowed) ∘ fun l => mkField (genShadow t) l.depth l.marked l.info l.top) a &&
           !a.info.skip) =
       (leaves true [] false 0 t).filter (fun l => !l.info.skip && !genShadow t l.depth l.info.name && selL l) := by
     apply List.filter_congr
     intro l hl
     have := hsel l hl
-    unfold genShadow walkTop at this ⊢
     simp only [Function.comp, this]
     simp only [mkField]
-    cases selL l <;> cases l.info.skip <;> cases shadowOf (walk noShadow true false 0 t) l.depth l.info.name <;> rfl
+    cases selL l <;> cases l.info.skip <;> cases genShadow t l.depth l.info.name <;> rfl
   rw [h2]
   rfl
 
